@@ -108,6 +108,9 @@ def run(repo, tier):
             if bad:
                 out.append(unrecognised("R-AXES", sm, role, bad, r))
                 continue
+            if got != want and (any(x in ("REST", "?", None) for x in got) or len(got) != len(want)):
+                out.append(unrecognised("R-AXES", sm, role, "the reshape's leading extents are not written out (%s): layout labels unknown" % got, r))
+                continue
             if got != want:
                 out.append(named("R-AXES", sm, role,
                                      "reshape lists %s but mutants are enumerated %s-major: flat index = %s" % (
